@@ -20,7 +20,7 @@ ASSUMPTIONS = ["the exact successor of a multi-switch write is left open (only t
                "bulk selection of several switches under OneOfMany/AtMostOne must keep the invariants and must not raise"]
 QUICK_SHARDS = 2
 REQUIRED_EVENTS = ["states", "transitions", "published_updates_judged", "client_writes", "driver_assignments", "bulk_selections",
-                   "client_writes_with_injected_fault", "client_writes_prevented_by_a_write_handler", "writes_in_a_foreign_spelling", "transitions_with_hidden_switches", "state_graphs_with_nested_element_names", "hardware_selector_moves"]
+                   "client_writes_with_injected_fault", "client_writes_prevented_by_a_write_handler", "writes_in_a_foreign_spelling", "transitions_with_hidden_switches", "state_graphs_with_nested_element_names", "hardware_selector_moves", "initial_configurations_declared_on_the_elements"]
 EXHAUSTIVE_NOTE = "the complete reachable state graph for every rule, 1..5 switches (thorough: 1..7) and every initial configuration, every operation on every node"
 SHARDED = True
 RULES = ["OneOfMany", "AtMostOne", "AnyOfMany"]
@@ -37,8 +37,8 @@ def N(i):
     return _NAMES[0][i]
 
 
-def make_spec(rule, n, default_on):
-    els = [{"attr": f"s{i}", "name": N(i), "label": None, "default": None, "enabled": True} for i in range(n)]
+def make_spec(rule, n, default_on, element_defaults=()):
+    els = [{"attr": f"s{i}", "name": N(i), "label": None, "default": ("On" if N(i) in element_defaults else None), "enabled": True} for i in range(n)]
     vec = {"attr": "sw", "kind": "Switch", "name": "SW", "label": None, "state": None, "perm": None, "timeout": None, "enabled": True,
            "rule": rule, "default_on": default_on, "elements": els}
     return {"name": "DEV", "levels": [{"groups": [{"attr": "g", "name": "G", "enabled": True, "vectors": [vec]}]}]}
@@ -108,12 +108,17 @@ def apply_op(router, rec, drv, vec, n, op):
         vec.selected_values = [N(i) for i in op[1]]
 
 
-def explore(ctx, rule, n, init, explored=None):
+def explore(ctx, rule, n, init, explored=None, via_element_defaults=False):
     from indi.routing import Router
     default_on = [N(i) for i, b in enumerate(init) if b]
     if rule != "AnyOfMany":
         default_on = default_on[0] if default_on else None
-    spec = make_spec(rule, n, default_on or None)
+    if via_element_defaults:
+        # the initial selection is declared on the ELEMENTS (Switch(..., default="On")), the vector gets no default_on
+        spec = make_spec(rule, n, None, element_defaults=[N(i) for i, b in enumerate(init) if b])
+        ctx.count("initial_configurations_declared_on_the_elements")
+    else:
+        spec = make_spec(rule, n, default_on or None)
     router = Router()
     faults = {"change": False, "delivery": False, "veto": False}
 
@@ -144,9 +149,14 @@ def explore(ctx, rule, n, init, explored=None):
     router.register_client(rec)
     vec = D.vector_of(drv, "g", "sw")
     start = read_state(vec, n)
-    cfg = {"rule": rule, "n": n, "init": list(init), "nested_names": {id(NESTED_NAMES): 1, id(NESTED_NAMES_REV): 2}.get(id(_NAMES[0]), 0)}
+    cfg = {"rule": rule, "n": n, "init": list(init), "via_element_defaults": via_element_defaults, "nested_names": {id(NESTED_NAMES): 1, id(NESTED_NAMES_REV): 2}.get(id(_NAMES[0]), 0)}
+    if rule == "OneOfMany" and not any(init) and sum(start) == 1:
+        # nothing was declared On: a library that then selects one switch itself satisfies the rule just as well as one that
+        # leaves all of them Off - explore from where it starts
+        init = start
     if start != tuple(init):
-        ctx.violate("default_on-not-honoured", f"initial configuration {init} gives state {start}", cfg)
+        ctx.violate("default_on-not-honoured" if not via_element_defaults else "element-defaults-not-honoured-or-rule-broken-at-start",
+                    f"initial configuration {init} gives state {start}", cfg)
         return
     ops = operations(n)
     explored = explored if explored is not None else set()
@@ -441,6 +451,10 @@ def run(ctx):
                 explore(ctx, rule, n, init, explored)
                 if ctx.enough():
                     return
+            if n <= 4:
+                for init in initial_configs(rule, n):
+                    if any(init):
+                        explore(ctx, rule, n, init, explored, via_element_defaults=True)      # the start state is what is judged
 
 
 def exhaustive(ctx):
@@ -458,7 +472,7 @@ def replay(ctx, case):
     rule, n, init, node = case["rule"], case["n"], case["init"], case.get("node")
     _NAMES[0] = {1: NESTED_NAMES, 2: NESTED_NAMES_REV}.get(int(case.get("nested_names") or 0), PLAIN_NAMES)
     if node is None:
-        explore(ctx, rule, n, tuple(init))
+        explore(ctx, rule, n, tuple(init), via_element_defaults=bool(case.get("via_element_defaults")))
         return
     default_on = [N(i) for i, b in enumerate(init) if b]
     if rule != "AnyOfMany":
